@@ -258,7 +258,7 @@ pub fn classify_num(v: &[u8]) -> NumClass {
     if acc > u64::MAX as u128 {
         return NumClass::NonNumeric;
     }
-    if plus || digits.len() > 20 {
+    if plus {
         NumClass::Ambiguous(acc as u64)
     } else {
         NumClass::Numeric(acc as u64)
@@ -284,6 +284,9 @@ pub struct Spec {
     pub item_limit: u32,
     /// statistics the judges use for their non-trivial rules
     pub stat: SpecStat,
+    /// why the item addressed by the command being judged is dead (attribution only)
+    dead_by_ttl: bool,
+    dead_by_flush: bool,
 }
 
 #[derive(Clone, Debug, Default)]
@@ -322,6 +325,8 @@ impl Spec {
             evictable: false,
             item_limit,
             stat: SpecStat::default(),
+            dead_by_ttl: false,
+            dead_by_flush: false,
         }
     }
 
@@ -437,6 +442,10 @@ impl Spec {
             Some(Presence::Dead) => {
                 let strict = !matches!(cmd.kind, Kind::Set | Kind::Delete);
                 let mut a = self.clone();
+                if let Some(it) = self.items.get(&cmd.key) {
+                    a.dead_by_ttl = it.dead_from.is_some_and(|d| self.now >= d);
+                    a.dead_by_flush = it.flush_deadline.is_some_and(|d| self.now >= d);
+                }
                 if strict {
                     if !cmd.kind.is_get() {
                         a.stat.nonget_on_dead += 1;
@@ -563,7 +572,12 @@ impl Spec {
     fn absent_owners(&self, key: &[u8], dead: bool, base: &'static str) -> Vec<&'static str> {
         let mut o = vec![base];
         if dead {
-            o.push(C05);
+            if self.dead_by_ttl || !self.dead_by_flush {
+                o.push(C05);
+            }
+            if self.dead_by_flush {
+                o.push(C08);
+            }
         }
         match self.tomb.get(key) {
             Some(&"deleted") | Some(&"flushed") => o.push(C08),
@@ -667,9 +681,12 @@ impl Spec {
         match assume {
             Assume::Absent { dead } => {
                 if let Some(_old) = self.items.remove(&cmd.key) {
-                    self.tomb.insert(cmd.key.clone(), if dead { "expired" } else { "gone" });
+                    self.tomb.insert(cmd.key.clone(), if dead { if self.dead_by_flush && !self.dead_by_ttl { "flushed" } else { "expired" } } else { "gone" });
                 }
-                self.apply_absent(cmd, out, dead, now)
+                let r = self.apply_absent(cmd, out, dead, now);
+                self.dead_by_ttl = false;
+                self.dead_by_flush = false;
+                r
             }
             Assume::Alive => self.apply_alive(cmd, out, now),
         }
@@ -682,7 +699,16 @@ impl Spec {
                 Out::Miss => Ok(()),
                 Out::Hit(r) => Err(Violation::new(
                     "invented",
-                    &(if dead || self.tomb.get(key) == Some(&"expired") {
+                    &(if dead {
+                        let mut o = vec![];
+                        if self.dead_by_ttl || !self.dead_by_flush {
+                            o.push(C05);
+                        }
+                        if self.dead_by_flush {
+                            o.push(C08);
+                        }
+                        o
+                    } else if self.tomb.get(key) == Some(&"expired") {
                         vec![C05]
                     } else {
                         self.absent_owners(key, dead, C01)
